@@ -177,3 +177,25 @@ def lower_bound(body, op, depth=0):
     if cs.name == "max":
         return max(lower_bound(body, cs.args[0], depth + 1), lower_bound(body, cs.args[1], depth + 1))
     return 0
+
+
+def import_results(ck, module, clause, func_substr, new_clause):
+    """re-evaluate another property's clause inside this check (shared clauses): runs `module` on
+    the same facts and copies the records of `clause` whose function contains func_substr"""
+    from core import AnchorMissing
+
+    sub = type(ck)(ck.prop, ck.facts, ck.config, ck.tier)
+    try:
+        module.run(sub)
+    except AnchorMissing:
+        pass
+    n = 0
+    for r in sub.results:
+        if r["clause"] == clause and (func_substr is None or func_substr in r["function"] or r["function"] == "<crate>"):
+            r = dict(r)
+            r["key"] = r["key"].replace("%s.%s/" % (ck.prop, clause), "%s.%s/" % (ck.prop, new_clause), 1)
+            r["clause"] = new_clause
+            ck.results.append(r)
+            n += 1
+    ck.floors += [dict(fl, clause=new_clause) for fl in sub.floors if fl["clause"] == clause and (func_substr is None or func_substr in fl["what"])]
+    return n
